@@ -170,7 +170,7 @@ fn s_rename(t: &mut Tape, ctx: &mut Ctx) -> Result<(), Failure> {
 }
 
 pub fn streams() -> Vec<Stream> {
-    vec![Stream { name: "rename", kind: Kind::Tape { cases: |t: Tier| t.pick(6_000, 150_000), max_len: 420, f: s_rename }, isolate: false }]
+    vec![Stream { name: "rename", kind: Kind::Tape { cases: |t: Tier| t.pick(6_000, 100_000), max_len: 420, f: s_rename }, isolate: false }]
 }
 
 pub fn def() -> PropertyDef {
